@@ -7,6 +7,8 @@ with the yield point that ends them.  Lines:
   open X [@P]      P ∈ open.locked | open.manifest_loaded | open.recovered : run until P (inclusive)
   close X [@P]     P ∈ close.wal_closed | close.wal_cleaned | close.dirs_synced
   resume X         finish the paused call
+  damage / repair  flip a byte of the commit log (only while nobody is live) / restore it: while damaged,
+                   recovery fails after the lock was taken
   drop X           drop the handle without close (the store closes itself asynchronously); waited for
   spawn X          open in a child process;  pclose X / pexit X / kill X : clean close / exit without close / SIGKILL
   put X k v        commit in store X;   get X k
@@ -35,6 +37,8 @@ structure C19State where
   kv : List (Nat × Nat) := []
   specOwner : Option Nat := none
   child : List Nat := []          -- openers that are child processes
+  hasData : Bool := false         -- a commit was made: the commit log is not empty
+  damaged : Bool := false         -- the commit log is damaged: recovery fails
 
 def collapse : List String → List String
   | [] => []
@@ -67,7 +71,14 @@ def c19Open (st : C19State) (x : Nat) (upto : String) : C19State × String × St
   let sp := match st.specOwner with
     | none => if upto == "" then "r=ok" else "r=paused"
     | some _ => "r=locked pure=1"
-  let (s', tr, rest, refused) := runLProg st.s x upto openProg []
+  -- with a damaged commit log the open fails after the manifest was loaded: the program stops there
+  let failing := st.damaged && st.specOwner.isNone
+  let prog := if failing then openProg.take 4 ++ [⟨.failOpen, "", "open.failed"⟩] else openProg
+  let upto := if failing && upto == "open.recovered" then "" else upto
+  let (s', tr, rest, refused) := runLProg st.s x upto prog []
+  if failing && rest.isEmpty && !refused then
+    ({ st with s := s' }, "r=failed free=1", "r=failed free=1")
+  else
   if refused then
     ({ st with s := s' }, s!"r=locked {pureStr st.s s'}", sp)
   else
@@ -91,6 +102,10 @@ def c19Resume (st : C19State) (x : Nat) : C19State × String × String :=
   | some (_, rest) =>
     let (s', tr, _, _) := runLProg st.s x "" rest []
     let closed := s'.phase x == .closed
+    if rest.any (·.label == "open.failed") then
+      ({ st with s := s', pending := st.pending.filter (·.1 != x),
+                 specOwner := if st.specOwner == some x then none else st.specOwner }, "r=failed free=1", "r=failed free=1")
+    else
     ({ st with s := s', pending := st.pending.filter (·.1 != x),
                specOwner := if closed && st.specOwner == some x then none else st.specOwner },
      s!"r=ok tr={traceStr tr}", "r=ok")
@@ -141,13 +156,16 @@ def c19Step (st : C19State) (ws : List String) : C19State × String × String :=
   | ["put", x, k, v] => match x.toNat?, k.toNat?, v.toNat? with
     | some x, some k, some v =>
       if st.s.phase x != .opened then (st, "bad-op", "bad-op") else
-      ({ st with s := st.s.step (.touch x), kv := (k, v) :: st.kv.filter (·.1 != k) }, "r=ok", "r=ok")
+      ({ st with s := st.s.step (.touch x), kv := (k, v) :: st.kv.filter (·.1 != k), hasData := true }, "r=ok", "r=ok")
     | _, _, _ => (st, "bad-op", "bad-op")
   | ["get", x, k] => match x.toNat?, k.toNat? with
     | some x, some k =>
       if st.s.phase x != .opened then (st, "bad-op", "bad-op") else
       (st, lookupKV st.kv k, lookupKV st.kv k)
     | _, _ => (st, "bad-op", "bad-op")
+  | ["damage"] =>
+    if st.hasData && st.specOwner.isNone then ({ st with damaged := true }, "r=ok", "r=ok") else (st, "r=skip", "r=skip")
+  | ["repair"] => ({ st with damaged := false }, "r=ok", "r=ok")
   | _ => (st, "bad-op", "bad-op")
 
 def c19Driver : LineDriver := { σ := C19State, init := {}, step := c19Step }
